@@ -994,6 +994,31 @@ theorem text_message_cut_anywhere_recorded (fs : Nat) (pol : Policy) (s : St) (f
   · simp
   · split <;> simp
 
+/-- **C28 (decoder output).** Every piece wsproto's strict incremental decoder hands to the relay
+    is itself UTF-8, whatever was held back from the previous frame — the hypothesis of
+    `text_buffer_stays_valid` / `unmodified_keeps_boundaries` about received text is a theorem
+    about the transcribed decoder. -/
+theorem decoder_output_is_utf8 (cs outs : List Bytes) (p' : Bytes)
+    (h : decodeChunks [] cs = some (outs, p')) : ∀ o ∈ outs, san o = o :=
+  decodeChunks_valid cs [] outs p' rfl h
+
+/-- **C28 (boundaries, text cut anywhere).** A text message whose frames the sender cut at
+    arbitrary byte positions and that the addons leave untouched is sent on in exactly the pieces
+    the decoder handed over (the frame boundaries moved to the next character boundary), and these
+    pieces concatenate to the original payload bytes. -/
+theorem unmodified_text_message_any_cuts (fs : Nat) (pol : Policy) (s : St) (fc : Bool)
+    (cs : List Bytes) (fr : List (Bytes × Bool)) (p' : Bytes) (hne : cs ≠ [])
+    (hdec : decodeChunks [] cs = some (fr.map (·.1), p')) (hwf : wellFramed fr = true)
+    (hc : s.crashed = false) (hb : s.buf fc = [[]]) (hop : s.ws (!fc) = .wopen)
+    (hkeep : pol s.msgs.length (Msg.mk true fc (fr.map (·.1)).flatten false false) = .keep) :
+    (procEvs fs pol fc false s (fr.map (fun pf => WsEv.msg true pf.1 true pf.2))).2 =
+      [.hookMsg s.msgs.length, .sendMsg (!fc) true fr] ∧
+    (fr.map (·.1)).flatten = cs.flatten := by
+  refine ⟨?_, (text_frames_cut_anywhere cs (fr.map (·.1)) p' hne hdec).1⟩
+  apply unmodified_message_keeps_frames fs pol s fc false true fr hwf hc hb hop hkeep
+  intro _ pf hpf
+  exact decoder_output_is_utf8 cs (fr.map (·.1)) p' hdec pf.1 (List.mem_map.mpr ⟨pf, hpf, rfl⟩)
+
 /-! ### non-vacuity: concrete runs computed by the kernel -/
 
 -- "a" ++ "é"×3 as text with FRAGMENT_SIZE 4: the cut at byte 4 would split the second "é";
